@@ -455,6 +455,8 @@ def execute(plan, prop, out, tr):
                 if targets is not None:
                     r_ = r_ - targets[j]
                 x = r_.square().sum(-1)
+                if bool(torch.isnan(x).any()):
+                    tot = float("nan"); break       # the kernels assert on NaN input: a NaN loss is reported as NaN
                 k = klist[j] if len(klist) > 1 else klist[0]
                 tot = tot + (k(x).sum() if k is not None else x.sum())
         if cur is not None:
